@@ -19,7 +19,7 @@ func init() {
 			if tier == "quick" {
 				return 12000
 			}
-			return 300000
+			return 900000
 		},
 		Rule:        "case = one ordered pair of PERSISTED versions (C06's pair generator: descendant / ancestor / siblings / unrelated / different heights / value-only / empty or emptied side / identical), both re-opened from their roots; reach(old), reach(new) computed by the independent walker over the recording store; DiffLinks callbacks tallied; clauses: every reported link is a node name, new\\old is a subset of added, added is a subset of new, symmetric for removed, no name twice; then a fresh store is filled with exactly reach(old) plus the added names and the new root must load there, iterate to the new model and have every node of reach(new) present; non-trivial = symmetric difference of the two node sets >= 2; distinct by (old root, new root)",
 		Assumptions: []string{"over-reporting of nodes common to both versions as added/removed is allowed by the statement and only counted (added_common / removed_common)"},
